@@ -312,9 +312,9 @@ func (vf *VersionedFetcher) seekNext(c cid.Cid, topParent bool) error {
 		return NewErrVFetcherFailedToDecodeNode(err)
 	}
 
-	// only seekNext on parent if we have a HEAD link
-	if len(block.Heads) != 0 {
-		err := vf.seekNext(block.Heads[0].Cid, true)
+	// seekNext on every parent, a commit that merges branches has more than one HEAD link
+	for _, h := range block.Heads {
+		err := vf.seekNext(h.Cid, true)
 		if err != nil {
 			return err
 		}
